@@ -24,4 +24,13 @@
   static inline T *NAME##__data(const struct NAME *v) { return v->data; } \
   static inline void NAME##__push_back(struct NAME *v, const T *x) { __CPROVER_assert(v->size < v->cap, "model: std::vector capacity VEC_CAP sufficient"); v->data[v->size] = *x; v->size++; }
 #endif
+/* models of std::sort / std::lower_bound / std::upper_bound over pointer iterators (trusted, hand written).
+ * CMP(closure, a, b) is a generated adapter around the real comparator. */
+#define STD_SORT(T, first, last, CMP) do { T *_sf = (first); T *_sl = (last); \
+    for(T *_si = _sf + 1; _si < _sl; ++_si) { T _key = *_si; T *_sj = _si; \
+      while(_sj > _sf && CMP(0, &_key, _sj - 1)) { *_sj = *(_sj - 1); --_sj; } *_sj = _key; } } while(0)
+#define STD_LOWER_BOUND(T, first, last, valp, CMP, clos) ({ T *_lf = (first); long _ln = (last) - _lf; const void *_lc = (clos); \
+    while(_ln > 0) { long _lh = _ln / 2; T *_lm = _lf + _lh; if(CMP(_lc, _lm, (valp))) { _lf = _lm + 1; _ln -= _lh + 1; } else _ln = _lh; } _lf; })
+#define STD_UPPER_BOUND(T, first, last, valp, CMP, clos) ({ T *_uf = (first); long _un = (last) - _uf; const void *_uc = (clos); \
+    while(_un > 0) { long _uh = _un / 2; T *_um = _uf + _uh; if(!CMP(_uc, (valp), _um)) { _uf = _um + 1; _un -= _uh + 1; } else _un = _uh; } _uf; })
 #endif
